@@ -10,6 +10,8 @@ def harness(c, n, replay_ops=None):
 
 
 def run(c):
+    # T1: switch case sets, return statements and branch conditions of verifyDANE / CheckConn, from the current tree
+    c.extract("dane", "DaneFacts.lean")
     c.lean("C13")
     if c.replay:
         harness(c, 1, replay_ops=c.replay.get("replay_ops") or [])
